@@ -1,4 +1,4 @@
-import GldapModel.Proofs.Server6
+import GldapModel.Proofs.ServerMeasure
 import GldapModel.Generated.Facts
 /-! # C11 - Stop returns in bounded time whatever clients are doing (the logic part)
 
@@ -10,11 +10,6 @@ so whatever the clients did before and whatever they refrain from doing now. Wal
 outside the model (partial): the bound is "a server-only step is always available", seconds are
 measured by the harness. -/
 namespace Server
-
-def Label.serverOnly : Label → Bool
-  | .runListen _ | .runLoopTop | .runAcceptClosed | .runSpawn | .stopStep _ | .handlerEnd _ | .teardown _
-  | .connExitShutdown _ => true
-  | _ => false
 
 theorem pending_pos {cs : List Conn} (h : pending cs ≠ 0) : ∃ c ∈ cs, c.gor ≠ .gone := by
   induction cs with
@@ -87,6 +82,44 @@ theorem C11_counterexample :
         (step pinnedFacts s .runAcceptClosed).isSome)) =
       some ([.at 2], false, false, false, false, true) := by decide
 
+theorem run_append (F : Facts) (s : Srv) (a b : List Label) : run F s (a ++ b) = (run F s a).bind (run F · b) := by
+  induction a generalizing s with
+  | nil => rfl
+  | cons l ls ih =>
+    simp only [List.cons_append, run]
+    cases step F s l with
+    | none => rfl
+    | some s1 => simp [ih]
+
+/-- Bounded: from any reachable state, whatever the clients did before, the server's own steps (its code,
+    handlers returning, teardowns, read loops ending because of the cancelled context) can follow one
+    another at most `mu s` times - a number read off the state: 4 per Stop not yet called, 3 - k per Stop in
+    progress, a few for Run, and for every connection its running handlers plus at most 4. -/
+theorem C11_bounded (n : Nat) (ls : List Label) (s : Srv) (hr : run goodFacts (init n) ls = some s)
+    (ls' : List Label) (s' : Srv) (hl : ∀ l ∈ ls', l.serverOnly = true) (hr' : run goodFacts s ls' = some s') :
+    ls'.length ≤ mu s := by
+  have h := inv_run ls (init n) s (inv_init n) hr
+  have := mu_run ls' s s' h hl hr'
+  omega
+
+/-- Terminates: when the server's own steps have run out (none is enabled any more), no Stop call is still in
+    progress. Together with `C11_bounded`: once Stop has been called, and without any help from the clients,
+    Stop returns after at most `mu s` steps of the server. -/
+theorem C11_terminates (n : Nat) (ls : List Label) (s : Srv) (hr : run goodFacts (init n) ls = some s)
+    (ls' : List Label) (s' : Srv) (hr' : run goodFacts s ls' = some s')
+    (hmax : ∀ l, l.serverOnly = true → step goodFacts s' l = none) :
+    ∀ (i k : Nat), s'.stops[i]? ≠ some (StopPc.at k) := by
+  intro i k hi
+  have hreach : run goodFacts (init n) (ls ++ ls') = some s' := by rw [run_append, hr]; exact hr'
+  obtain ⟨l, hso, hen⟩ := C11_progress n (ls ++ ls') s' hreach i k hi
+  rw [hmax l hso] at hen
+  simp at hen
+
+/-- the bound on a concrete state: Run accepting, one Stop at its Wait, one idle connection and one connection with
+    two handlers running - at most 12 more steps of the server -/
+example : (run goodFacts (init 1) [.runListen true, .runLoopTop, .runAcceptOk, .runSpawn, .runLoopTop, .runAcceptOk, .runSpawn,
+    .handlerStart 2, .handlerStart 2, .runLoopTop, .stopStep 0, .stopStep 0, .stopStep 0]).map mu = some 12 := by decide
+
 theorem C11_current_facts : Gldap.Generated.serverFacts = goodFacts := by decide
 
 theorem C11_current (n : Nat) (ls : List Label) (s : Srv) (hr : run Gldap.Generated.serverFacts (init n) ls = some s)
@@ -94,5 +127,12 @@ theorem C11_current (n : Nat) (ls : List Label) (s : Srv) (hr : run Gldap.Genera
     ∃ l, l.serverOnly = true ∧ (step Gldap.Generated.serverFacts s l).isSome = true := by
   rw [C11_current_facts] at hr ⊢
   exact C11_progress n ls s hr i k hi
+
+theorem C11_current_bounded (n : Nat) (ls : List Label) (s : Srv) (hr : run Gldap.Generated.serverFacts (init n) ls = some s)
+    (ls' : List Label) (s' : Srv) (hl : ∀ l ∈ ls', l.serverOnly = true) (hr' : run Gldap.Generated.serverFacts s ls' = some s') :
+    ls'.length ≤ mu s ∧
+    ((∀ l, l.serverOnly = true → step Gldap.Generated.serverFacts s' l = none) → ∀ (i k : Nat), s'.stops[i]? ≠ some (StopPc.at k)) := by
+  rw [C11_current_facts] at hr hr' ⊢
+  exact ⟨C11_bounded n ls s hr ls' s' hl hr', C11_terminates n ls s hr ls' s' hr'⟩
 
 end Server
